@@ -1,0 +1,178 @@
+//go:build verif
+
+// Package verifhook provides named instrumentation points for the external
+// verification harness (build tag `verif`). A point can be given an action
+// programmatically (Set) or from the environment:
+//
+//	VERIF_POINTS="batch.beforeSend=sleep:200us:p0.3,worker.beforeSend=yield"
+//	VERIF_SEED=7          seeds the per-point PRNG
+//	VERIF_HOOK_LOG=path   Flush() writes "name count" lines there
+package verifhook
+
+import (
+	"fmt"
+	"os"
+	"runtime"
+	"sort"
+	"strconv"
+	"strings"
+	"sync"
+	"sync/atomic"
+	"time"
+)
+
+type action struct {
+	kind  string // sleep | yield
+	dur   time.Duration
+	prob  float64
+	first int64 // only the first n hits act (0 = all)
+}
+
+type point struct {
+	hits atomic.Int64
+	fn   atomic.Value // func()
+	act  *action
+	rng  atomic.Uint64
+}
+
+var (
+	mu     sync.Mutex
+	points = map[string]*point{}
+	frozen atomic.Value // map[string]*point snapshot for lock-free lookup
+)
+
+func init() {
+	seed, _ := strconv.ParseUint(os.Getenv("VERIF_SEED"), 10, 64)
+	spec := os.Getenv("VERIF_POINTS")
+	if spec == "" {
+		return
+	}
+	for _, item := range strings.Split(spec, ",") {
+		kv := strings.SplitN(strings.TrimSpace(item), "=", 2)
+		if len(kv) != 2 {
+			continue
+		}
+		a := &action{prob: 1}
+		for i, f := range strings.Split(kv[1], ":") {
+			switch {
+			case i == 0:
+				a.kind = f
+			case strings.HasPrefix(f, "p"):
+				a.prob, _ = strconv.ParseFloat(f[1:], 64)
+			case strings.HasPrefix(f, "n"):
+				a.first, _ = strconv.ParseInt(f[1:], 10, 64)
+			default:
+				a.dur, _ = time.ParseDuration(f)
+			}
+		}
+		p := get(kv[0])
+		p.act = a
+		p.rng.Store(seed*0x9e3779b97f4a7c15 + uint64(len(kv[0]))*0xbf58476d1ce4e5b9 + 1)
+	}
+}
+
+func get(name string) *point {
+	if m, ok := frozen.Load().(map[string]*point); ok {
+		if p, ok := m[name]; ok {
+			return p
+		}
+	}
+	mu.Lock()
+	defer mu.Unlock()
+	p, ok := points[name]
+	if !ok {
+		p = &point{}
+		points[name] = p
+		snap := make(map[string]*point, len(points))
+		for k, v := range points {
+			snap[k] = v
+		}
+		frozen.Store(snap)
+	}
+	return p
+}
+
+func (p *point) next() uint64 {
+	for {
+		old := p.rng.Load()
+		z := old + 0x9e3779b97f4a7c15
+		if p.rng.CompareAndSwap(old, z) {
+			z = (z ^ (z >> 30)) * 0xbf58476d1ce4e5b9
+			z = (z ^ (z >> 27)) * 0x94d049bb133111eb
+			return z ^ (z >> 31)
+		}
+	}
+}
+
+// Point marks a named instrumentation point
+func Point(name string) {
+	p := get(name)
+	n := p.hits.Add(1)
+	if f, ok := p.fn.Load().(func()); ok && f != nil {
+		f()
+	}
+	if a := p.act; a != nil {
+		if a.first > 0 && n > a.first {
+			return
+		}
+		if a.prob < 1 && float64(p.next()>>11)/float64(1<<53) >= a.prob {
+			return
+		}
+		switch a.kind {
+		case "sleep":
+			time.Sleep(a.dur)
+		case "yield":
+			runtime.Gosched()
+		}
+	}
+}
+
+// Set installs (or with nil removes) a callback for a point
+func Set(name string, f func()) {
+	p := get(name)
+	if f == nil {
+		p.fn.Store((func())(nil))
+		return
+	}
+	p.fn.Store(f)
+}
+
+// Hits returns a copy of the hit counters
+func Hits() map[string]int64 {
+	mu.Lock()
+	defer mu.Unlock()
+	out := make(map[string]int64, len(points))
+	for k, v := range points {
+		out[k] = v.hits.Load()
+	}
+	return out
+}
+
+// Reset clears hit counters and callbacks
+func Reset() {
+	mu.Lock()
+	defer mu.Unlock()
+	for _, v := range points {
+		v.hits.Store(0)
+		v.fn.Store((func())(nil))
+	}
+}
+
+// Flush writes hit counters to VERIF_HOOK_LOG
+func Flush() {
+	path := os.Getenv("VERIF_HOOK_LOG")
+	if path == "" {
+		return
+	}
+	h := Hits()
+	names := make([]string, 0, len(h))
+	for k := range h {
+		names = append(names, k)
+	}
+	sort.Strings(names)
+	var sb strings.Builder
+	for _, k := range names {
+		fmt.Fprintf(&sb, "%s %d\n", k, h[k])
+	}
+	os.WriteFile(path, []byte(sb.String()), 0o644)
+}
